@@ -124,7 +124,11 @@ def kani_family(ctx, fam_name, desc, specs, files, timeout_s=600):
         run.kani.append({'harness': h, 'status': r['status'] if r else 'missing', 'time_s': r['time'] if r else None, 'cbmc_checks': r['checks'] if r else 0})
         run.functions['kani:' + h] = True
         if r is None or r['status'] in ('error', 'compile-error', 'timeout', 'unwind'):
-            raise Broken(f'Kani harness {h} is inconclusive ({r["status"] if r else "missing"}): ' + (r['log'][-600:] if r else ''))
+            # nothing is claimed for this harness. Alone that makes the check inconclusive as a whole (exit 2); when another family of
+            # the same run has a replayed violation, the violation is what is reported (report.Run.finish)
+            msg = f'Kani harness {h} is inconclusive ({r["status"] if r else "missing"}): ' + (r['log'][-600:] if r else '')
+            run.deferred_broken = getattr(run, 'deferred_broken', []) + [msg]
+            continue
         run.paths += r['checks']
         if r['status'] == 'success':
             if r['cover'] is False:
